@@ -8,8 +8,9 @@ for P in C03 C04 C05 C06 C07 C09 C10 C11 C12 C13 C15 C16 C17 C18; do
     D="${SEEDED_OUT:-/tmp/seeded-out}/$P/variant_$X"
     [ -f "$D/patch.diff" ] && [ -f "$D/demo.rs" ] || continue
     grep -q "^DONE $P $X" $LOG 2>/dev/null && continue
+    if [ -n "${SEEDED_ONLY:-}" ]; then case " $SEEDED_ONLY " in *" ${P}_$X "*) ;; *) continue;; esac; fi
     ./tools/confirm_seeded.sh $P $X >> $LOG 2>&1
-    ./tools/run_mutant.sh "$D/patch.diff" quick $P >> $LOG 2>&1
+    ./tools/run_mutant.sh "$D/patch.diff" "${SEEDED_TIER:-quick}" $P >> $LOG 2>&1
     echo "DONE $P $X" >> $LOG
   done
 done
